@@ -126,7 +126,10 @@ pub fn observe_map(path: &Path) -> Value {
             layers = g.layer_indices.clone();
             Ok(vec![("layer_lo", g.layer_indices.start as i64), ("layer_hi", g.layer_indices.end as i64)])
         });
-        for li in layers {
+        // a group must only hand out layer items; if it hands out more (MapTrace rejects that),
+        // the walk still stays inside the item table
+        let lim = r.reader.num_items();
+        for li in layers.start.min(lim)..layers.end.min(lim) {
             let mut tm = None;
             c.call("layer", li as i64, || {
                 let l = r.layer(li).map_err(e)?;
